@@ -580,6 +580,8 @@ func (sp *ServerPool) doHandle(stdctx stdcontext.Context, spCtx *serverPoolConte
 func (sp *ServerPool) buildResponse(spCtx *serverPoolContext) (err error) {
 	body := readers.NewCallbackReader(spCtx.stdResp.Body)
 	spCtx.stdResp.Body = body
+	rawBodySize := 0
+	body.OnAfter(func(total int, p []byte, err error) { rawBodySize = total })
 
 	if sp.proxy.compression != nil {
 		if sp.proxy.compression.compress(spCtx.stdReq, spCtx.stdResp) {
@@ -602,6 +604,19 @@ func (sp *ServerPool) buildResponse(spCtx *serverPoolContext) (err error) {
 		logger.Debugf("%s: failed to fetch response payload: %v", sp.name, err)
 		body.Close()
 		return err
+	}
+
+	// the limit is about the body the server sent, compression above may
+	// have shrunk what has just been buffered below the limit.
+	if limit := maxBodySize; !resp.IsStream() {
+		if limit == 0 {
+			limit = httpprot.DefaultMaxPayloadSize
+		}
+		if int64(rawBodySize) > limit {
+			logger.Debugf("%s: response body of %d bytes exceeds the limit", sp.name, rawBodySize)
+			body.Close()
+			return httpprot.ErrResponseEntityTooLarge
+		}
 	}
 
 	if !resp.IsStream() {
